@@ -356,7 +356,7 @@ func execEncOpen(t []string) string {
 	log := &keys.Log{}
 	ring := parseRing(t[2], t[3], t[4], t[5], t[6], log)
 	msg := unhex(t[7])
-	mki, r, err := saltpack.NewDecryptStream(parseValidator(t[1]), bytes.NewReader(msg), ring)
+	mki, r, err := saltpack.NewDecryptStream(parseValidator(t[1]), msgReader(msg), ring)
 	if err != nil {
 		return fmt.Sprintf("res %s rel=- calls=%s -", script.Class(err), log.String())
 	}
@@ -410,7 +410,7 @@ func execScOpen(t []string) string {
 	log := &keys.Log{}
 	ring := parseRing(t[1], t[2], t[3], t[4], t[5], log)
 	msg := unhex(t[7])
-	spk, r, err := saltpack.NewSigncryptOpenStream(bytes.NewReader(msg), ring, parseResolver(t[6]))
+	spk, r, err := saltpack.NewSigncryptOpenStream(msgReader(msg), ring, parseResolver(t[6]))
 	if err != nil {
 		return fmt.Sprintf("res %s rel=- calls=%s sender=-", script.Class(err), log.String())
 	}
@@ -449,7 +449,7 @@ func execSign(t []string) string {
 // sig.verify valid lsig msg
 func execVerify(t []string) string {
 	ring := parseRing("-", "none", "nil", "nil", t[2], nil)
-	skey, r, err := saltpack.NewVerifyStream(parseValidator(t[1]), bytes.NewReader(unhex(t[3])), ring)
+	skey, r, err := saltpack.NewVerifyStream(parseValidator(t[1]), msgReader(unhex(t[3])), ring)
 	if err != nil {
 		return fmt.Sprintf("res %s rel=- signer=-", script.Class(err))
 	}
@@ -469,4 +469,12 @@ func execVerifyDetached(t []string) string {
 		return fmt.Sprintf("res %s signer=-", script.Class(err))
 	}
 	return fmt.Sprintf("res ok signer=%s", keys.Hex(skey.ToKID()))
+}
+
+// msgReader: how the *.open ops read their message (plain, fragmented, faulting)
+func msgReader(msg []byte) io.Reader {
+	if currentFault != nil {
+		return &faultingReader{b: msg, spec: *currentFault}
+	}
+	return readerFor(msg)
 }
